@@ -137,11 +137,8 @@ def answerTarget (s : St) (a : Nat) : St × Bool :=
 def deliver (s : St) (a : Nat) (r : Ans) (k : Nat) : St :=
   (s.setActor a (fun x => { x with blocked := false })).emit (.answer a r k)
 
-/-- the per-issuer body of the `while (not simcalls_.empty())` loop of `CommImpl::finish` -/
-def commAnswerOne (k : Nat) (s : St) (a : Nat) : St :=
-  let s := unregisterAll s a
-  let (s, yes) := answerTarget s a
-  if ¬ yes then s else
+/-- body of the answer loop of `CommImpl::finish` once `unregister_first_simcall` returned the issuer -/
+def commAfter (k : Nat) (s : St) (a : Nat) : St :=
   let s := s.setActor a (fun x => { x with activities := x.activities.erase k })   -- issuer->activities_.erase(this)
   let c := s.acts k
   let s := match c.state with
@@ -158,6 +155,11 @@ def commAnswerOne (k : Nat) (s : St) (a : Nat) : St :=
     let s := if c.dst ≠ some a then eraseActivity s c.dst k else s
     if c.src ≠ some a then eraseActivity s c.src k else s
   else s
+
+/-- the per-issuer body of the `while (not simcalls_.empty())` loop of `CommImpl::finish` -/
+def commAnswerOne (k : Nat) (s : St) (a : Nat) : St :=
+  let r := answerTarget (unregisterAll s a) a
+  if r.2 then commAfter k r.1 a else r.1
 
 /-- state update at the head of `CommImpl::finish` -/
 def commFinalState (s : St) (k : Nat) : AState :=
@@ -179,16 +181,17 @@ def finishComm (s : St) (k : Nat) : St :=
   let s := s.setAct k (fun x => { x with simcalls := [] })
   l.foldl (commAnswerOne k) s
 
-def execAnswerOne (k : Nat) (s : St) (a : Nat) : St :=
-  let s := unregisterAll s a
-  let (s, yes) := answerTarget s a
-  if ¬ yes then s else
+def execAfter (k : Nat) (s : St) (a : Nat) : St :=
   let s := s.setActor a (fun x => { x with activities := x.activities.erase k })
   match (s.acts k).state with
   | .failed => deliver s a (.exc .host) k
   | .canceled => deliver s a (.exc .cancel) k
   | .done => deliver s a .ok k
   | _ => s.crash
+
+def execAnswerOne (k : Nat) (s : St) (a : Nat) : St :=
+  let r := answerTarget (unregisterAll s a) a
+  if r.2 then execAfter k r.1 a else r.1
 
 /-- `ExecImpl::finish` -/
 def finishExec (s : St) (k : Nat) : St :=
@@ -204,9 +207,8 @@ def finishExec (s : St) (k : Nat) : St :=
   l.foldl (execAnswerOne k) s
 
 def sleepAnswerOne (k : Nat) (s : St) (a : Nat) : St :=
-  let s := unregisterAll s a
-  let (s, yes) := answerTarget s a
-  if ¬ yes then s else deliver s a .ok k
+  let r := answerTarget (unregisterAll s a) a
+  if r.2 then deliver r.1 a .ok k else r.1
 
 /-- `SleepImpl::finish` (a null `model_action_` would be dereferenced: modelled as a crash) -/
 def finishSleep (s : St) (k : Nat) : St :=
